@@ -6,7 +6,11 @@ EXTENDS Naturals, Sequences, TLC, Json, IOUtils
 Trace == JsonDeserialize(IOEnv.TRACE_FILE)
 VARIABLE l
 Judge(e) ==
-    IF e.exc # "" THEN {<<"AllDocumentedArgumentsAccepted", e.exc>>}
+    IF e.fail # "" THEN      \* the device raised e.fail after taking the command (Facade!Fail): propagate, exactly once
+        (IF e.exc # e.fail THEN {<<"ErrorPropagates", e.fail>>} ELSE {})
+        \cup (IF e.execs # 1 THEN {<<"ExactlyOnce", ToString(e.execs)>>} ELSE {})
+        \cup (IF e.returned THEN {<<"ErrorPropagates", "command returned">>} ELSE {})
+    ELSE IF e.exc # "" THEN {<<"AllDocumentedArgumentsAccepted", e.exc>>}
     ELSE (IF e.execs # 1 THEN {<<"ExactlyOnce", ToString(e.execs)>>} ELSE {})
          \cup (IF ~e.returned THEN {<<"ReturnsCommand", "">>} ELSE {})
          \cup (IF e.execs >= 1 /\ ~e.same_bufs THEN {<<"SameBuffers", "">>} ELSE {})
